@@ -4,7 +4,7 @@ import os, glob, runpy
 PROPS = {}
 NOT_APPLICABLE = {}
 # properties whose check the coordinator has verified on the unchanged tree (only these go into MANIFEST.checks)
-CLAIMED = ['C01', 'C02', 'C04', 'C06', 'C07', 'C08', 'C10', 'C11', 'C12', 'C13', 'C14', 'C16', 'C18', 'C24', 'C25', 'C26', 'C27', 'C28', 'C29', 'C30', 'C31', 'C32', 'C33', 'C34', 'C35', 'C36']
+CLAIMED = ['C01', 'C02', 'C03', 'C04', 'C05', 'C06', 'C07', 'C08', 'C09', 'C10', 'C11', 'C12', 'C13', 'C14', 'C15', 'C16', 'C17', 'C18', 'C19', 'C20', 'C21', 'C22', 'C23', 'C24', 'C25', 'C26', 'C27', 'C28', 'C29', 'C30', 'C31', 'C32', 'C33', 'C34', 'C35', 'C36']
 # /repo commits that add cfg(inputlayer_verif) hooks
 HOOK_COMMITS = ['48037f1', '18d37c5', '74a2aec', '9f917d6', 'fcf7241']
 _d = os.path.join(os.path.dirname(os.path.abspath(__file__)), 'props.d')
